@@ -470,6 +470,32 @@ blinding factor -/
 theorem C10_driver_mul_is_model (e : Int) : Driver.C10.mulFast e = Curve.mulG k1 0 e :=
   Driver.C10.mulFast_eq e
 
+/-! ### non-vacuity (evaluated; the driver prints the same values) -/
+
+/-- `02 ‖ Gx`: the generator, compressed -/
+def secG : Bytes := 2 :: beBytes 55066263022277343669578718895168534326250603453777594175500187360389116729240 32
+
+#guard (keyFromSec k1 secG).toOption.map (·.pub) ==
+  some (55066263022277343669578718895168534326250603453777594175500187360389116729240,
+        32670510020758816978083085130507043184471273380659243275938904335757337482424)
+#guard (keyFromSec k1 secG).toOption.map (·.sec none) == some (.ok secG)
+-- the witness of the fixed defect: `02 ‖ (p+1)` is refused, `02 ‖ 1` is the point's only compressed encoding
+#guard keyFromSec k1 (2 :: beBytes (k1.p + 1) 32) == .error .encodingError
+#guard (keyFromSec k1 (2 :: beBytes 1 32)).toOption.map (·.pub.1) == some 1
+-- hybrid prefix: refused in strict mode, read in non-strict mode; prefix 05 with 33 bytes is read as "odd" (as coded)
+#guard secToPublicPair k1 (6 :: (beBytes 1 32 ++ beBytes 2 32)) true == .error .encodingError
+#guard secToPublicPair k1 (6 :: (beBytes 1 32 ++ beBytes 2 32)) false == .ok (1, 2)
+#guard (secToPublicPair k1 (5 :: beBytes 1 32) false).toOption.map (fun P => P.2 % 2) == some 1
+-- exponent 1 on Bitcoin mainnet, compressed: the well-known WIF, and it parses back
+#guard (keyFromSecretWith k1 Driver.C10.mulFast 1 true).toOption.bind
+    (fun k => (Key.wif Gen.Networks.net_btc k none).toOption) ==
+  some (some "KwDiBf89QgGbjEhKnhXJuH7LrciVrZi3qYjgd9M7rFU73sVHnoWn".toUTF8.toList)
+#guard (parseWifWith k1 Driver.C10.mulFast Gen.Networks.net_btc
+    "KwDiBf89QgGbjEhKnhXJuH7LrciVrZi3qYjgd9M7rFU73sVHnoWn".toUTF8.toList).toOption.map
+      (fun o => o.map (fun k => (k.se, k.compressed))) == some (some (some 1, true))
+-- a 2-byte prefix network
+#guard Gen.Networks.net_dcr.outWif.map List.length == some 2
+
 end shipped
 
 /-! ## DER (`pycoin/satoshi/der.py`) -/
